@@ -228,17 +228,20 @@ impl Cqueue {
     // when the select coroutine is done, check the panic status
     // if it's panicked, re throw the panic data
     fn check_panic(&self, id: usize) {
-        if self.is_panicking.load(Ordering::Relaxed) {
-            return;
-        }
-
         use generator::Error;
         // don't keep the lock while joining and (maybe) re-throwing the panic,
         // that would poison it for the drop
         let handle = self.selectors.lock().unwrap()[id]
             .take()
             .expect("join handler not set");
-        match handle.join() {
+        // always wait for the select coroutine: it still uses the cqueue until
+        // its very end
+        let ret = handle.join();
+        if self.is_panicking.load(Ordering::Relaxed) {
+            return;
+        }
+
+        match ret {
             Ok(_) => {}
             Err(panic) => {
                 if let Some(err) = panic.downcast_ref::<Error>() {
@@ -276,7 +279,12 @@ impl Cqueue {
                 Some(mut ev) => run_ev!(ev),
                 None => {
                     if self.cnt.load(Ordering::Relaxed) == 0 {
-                        return Err(PollError::Finished);
+                        // the last Done event may have been pushed after the pop
+                        // above, it must be processed before we leave
+                        match self.ev_queue.pop() {
+                            Some(mut ev) => run_ev!(ev),
+                            None => return Err(PollError::Finished),
+                        }
                     }
                 }
             }
